@@ -249,6 +249,20 @@ Theorem C12_name_history_spec : forall h st,
 Proof. exact name_history_spec. Qed.
 Print Assumptions C12_name_history_spec.
 
+(* ---- a whole live process (the statement the live cases instantiate on the running kernel) *)
+
+(* cmdline(), environ(), exe(), cwd(), name() on one well-formed process record: the argument
+   vector, a dictionary equal (as a dictionary) to the demanded one, the two dentry paths,
+   the extended name *)
+Theorem C12_live_block : forall r,
+  wf_live r = true ->
+  exists d, run_ops now st0 (live_ops (view_live r)) =
+            [RList (Val (spec_cmdline (lv_cmd r))); RDict (Val d);
+             RBytes (Val (l_path (lv_exe r))); RBytes (Val (l_path (lv_cwd r))); RBytes (Val (spec_name (live_proc r)))]
+            /\ NoDup (map fst d) /\ forall k, aget k d = aget k (spec_env (e_items (lv_env r))).
+Proof. exact live_block. Qed.
+Print Assumptions C12_live_block.
+
 (* ---- a block of calls *)
 
 (* cmdline(), cmdline(), name(), exe() on one object over an unchanged kernel state: every
